@@ -15,13 +15,29 @@ use crate::rng::{derive, Fnv};
 use crate::slots::{build_slot, exec, Slot};
 use crate::types::*;
 
-pub fn run(seed: u64, index: u64, dump: bool) -> i32 {
+pub fn run(seed: u64, index: u64, dump_only: bool) -> i32 {
     let g = gen_run(derive(derive(seed, 0x3141_5926), index), Mode::C17Miri);
     let spec = g.spec;
-    if dump {
-        println!("{}", serde_json::to_string_pretty(&spec).unwrap());
+    if dump_only {
+        println!("{}", serde_json::to_string(&spec).unwrap());
+        return 0;
     }
-    println!("WORKLOAD {:016x} slots={} threads={} ops={}", spec.workload_hash(), spec.slots.len(), spec.threads.len(), spec.n_ops());
+    run_workload(&spec, derive(seed, index))
+}
+
+/// engine B on an explicit workload (minimisation candidates; passed on argv, never via env/files)
+pub fn run_json(json: &str) -> i32 {
+    match serde_json::from_str::<RunSpec>(json) {
+        Ok(spec) => run_workload(&spec, 0),
+        Err(e) => {
+            eprintln!("miri-spec: cannot parse workload: {e}");
+            2
+        }
+    }
+}
+
+fn run_workload(spec: &RunSpec, label: u64) -> i32 {
+    println!("WORKLOAD {:016x} slots={} threads={} ops={}", label, spec.slots.len(), spec.threads.len(), spec.n_ops());
     for c in &spec.slots {
         println!("SLOT {}", c.label());
     }
@@ -37,21 +53,39 @@ pub fn run(seed: u64, index: u64, dump: bool) -> i32 {
             }
         }
     }
+    // Reference: every distinct operation once, single-threaded, on a second set of instances
+    // that is never shared between threads. (History independence is engine A's question; here
+    // the reference only has to be free of concurrency, and building a fresh instance per
+    // operation would triple the interpreted work.)
+    let mut refs: Vec<Box<dyn Slot>> = vec![];
+    for cfg in &spec.slots {
+        match build_slot(cfg) {
+            Ok(s) => refs.push(s),
+            Err(_) => {
+                println!("RESULT skipped");
+                return 0;
+            }
+        }
+    }
+    let mut distinct: Vec<(Op, Outcome)> = vec![];
     let mut table: Vec<Vec<Outcome>> = vec![];
     for t in &spec.threads {
         let mut row = vec![];
         for op in &t.ops {
-            let fresh = match build_slot(&spec.slots[op.slot]) {
-                Ok(s) => s,
-                Err(_) => {
-                    println!("RESULT skipped");
-                    return 0;
+            let known = distinct.iter().find(|(o, _)| o == op).map(|(_, r)| r.clone());
+            let out = match known {
+                Some(r) => r,
+                None => {
+                    let r = exec(&*refs[op.slot], op);
+                    distinct.push((op.clone(), r.clone()));
+                    r
                 }
             };
-            row.push(exec(&*fresh, op));
+            row.push(out);
         }
         table.push(row);
     }
+    drop(refs);
     println!("PHASE reference-done");
     // ---- concurrent phase: free-running threads under the interpreter's scheduler ----------
     let stamp = AtomicUsize::new(0);
